@@ -24,6 +24,130 @@ CHECKS = {
              "safetensors writer, shard file naming (checked by the oracle only).",
         technique="Coq proof over translated+hand model; vm_compute correspondence with real save/load",
         design_ref="§6 C07"),
+    "C03": dict(
+        level="translation_validation",
+        text="Proved in Coq for all IR states: serialization is read-only except aligning an initializer tensor's name with its "
+             "value (C03_ser_readonly), a second to_proto on the state the first left returns the same proto "
+             "(C03_ser_twice_equal), determinism, and the round-tripped state always satisfies the use-def/ownership "
+             "invariant (C03_roundtrip_consistent_partial). The isomorphism clause (C03_iso) is stated in Property.v but NOT "
+             "proved: it is evaluated inside Coq on every generated case (iso_statement_b on the model's ser/deser) and "
+             "compared with the implementation, plus an independent Python isomorphism oracle — hence translation "
+             "validation, not proof, for that clause.",
+        note=TRUST + "Leaf payloads (tensor bytes, types/shapes, plain attributes, metadata) are opaque tokens computed by the "
+             "library's own leaf (de)serializers (C02/C04 territory); protobuf itself; Python recursion limit. "
+             "serializable_b: const_value only on initializers, no tensor shared by two values, non-input initializers typed.",
+        technique="Coq proofs (read-only, twice-equal) + per-case Coq evaluation of the isomorphism statement against from_proto(to_proto(m))",
+        design_ref="§6 C03, §10"),
+    "C08": dict(
+        level="proof",
+        text="An effect-list model of _write_external_data / the sharded path over a small file-system model; proved for every "
+             "input, every kill point k and every single fault: the destination is its old node or a file moved wholesale by "
+             "os.replace after every action of the write returned normally (never a mixture or truncation) "
+             "(C08_crash_atomic_partial / C08_interrupt_atomic_partial: 'partial' only because byte-identity new = image is "
+             "proved for in-memory/lazy/multi-chunk tensors, not for ExternalTensor sources); on an exception the whole "
+             "directory equals the initial one, no temp left, external tensors valid and reading old bytes "
+             "(C08_exception_clean, full, single-fault assumption in the statement); sharded saves never change a "
+             "pre-existing path; invalidation only if replaced. Tie: FS-affecting names rebound to logging proxies; the "
+             "un-interrupted trace must equal the model's, then EVERY effect index is failed in-process and used as a kill "
+             "point in a forked child, outcomes compared inside Coq.",
+        note=TRUST + "Modelled, not verified: atomicity of os.replace, power loss, copy_file_range fast path, the parallel "
+             "writer (oracle only). Contracts as hypotheses: mkdtemp returns a fresh name; destination is not a directory.",
+        technique="Coq proof over effect-list/FS model; fault+kill injection at every effect index compared in Coq",
+        design_ref="§6 C08, §10"),
+    "C11": dict(
+        level="proof",
+        text="21 theorems, none partial, proved for all states and all schedules (any number of forward/backward cursors "
+             "interleaved with append/extend/insert_before/insert_after/remove/move): well-formedness invariant preserved; "
+             "every edit refines the plain-list operation (len, g[i], membership, list, reversed agree); a cursor yields only "
+             "live nodes, terminates within len+1 steps once edits stop, never raises; untouched nodes are yielded exactly "
+             "once in graph order; inserted-after yielded / inserted-before skipped; removed or moved current node resumes "
+             "at its original successor; cursors are independent. Tie: the model (live sequence + frozen tombstone links, "
+             "generator-resume semantics) is replayed inside Coq against DoublyLinkedSet, ir.Graph and ir.Function on random "
+             "schedules and exhaustive small scopes; the oracle states the property against a plain-list spec.",
+        note=TRUST + "Not modelled in Coq: RecursiveGraphIterator (oracle only); Graph.sort's order enters as a permutation "
+             "(C12). CPython generator semantics are the model's cursor rules.",
+        technique="Coq proof over tombstone-list model; vm_compute replay of schedules against DoublyLinkedSet/Graph",
+        design_ref="§6 C11, §10"),
+    "C14": dict(
+        level="proof",
+        text="Proved in Coq: the identity rule for every pass term (primitive, Sequential, PassManager, functionalize), the "
+             "modified flag of compositions, PassManager convergence under a measure, call_onnx_api leaves inputs, initializer "
+             "order and every tensor/shape/dtype unchanged for every outcome of serialization and of the ONNX call "
+             "(C14_analysis_readonly), and flag soundness + convergence with explicit measures for the modelled passes "
+             "(clear, DCE on flat graphs, toposort flag, Add/RemoveInitializers). Tie: 2600 cases/run compared inside Coq "
+             "with the real pass infrastructure; the oracle sweeps all 22 built-in pass variants and compositions, with "
+             "faults injected at the ONNX boundary (rebound checker/shape inference, raising LazyTensor).",
+        note=TRUST + "Passes not modelled in Coq (inliner, CSE, identity elimination, lifting, shape inference merge, ...) are "
+             "covered by the oracle only; onnx.checker/shape_inference are section variables that may raise.",
+        technique="Coq proof over pass-infrastructure and call_onnx_api models; vm_compute correspondence; fault injection",
+        design_ref="§6 C14, §10"),
+    "C15": dict(
+        level="proof",
+        text="Proved in full: NameAuthority freshness for every add/remove/re-add history with arbitrary explicit names "
+             "(generated names never collide, explicit names kept, fuel suffices — via injectivity of decimal printing), and "
+             "rename_values all-or-nothing for every assignment (swaps, cycles, initializers). NameFixPass (model of the code "
+             "after fix 25cf9b5): fuel suffices; the only possible exception is the initializer guard and models without "
+             "initializers never raise (C15_fix_total_partial); a traversal-met uniquely named value keeps its name "
+             "(C15_fix_keeps_unique_partial); per-value post-condition (C15_fix_post_partial); the unsorted outer-capture "
+             "refutation (C15_fix_post_unsorted_refuted, a known finding). Tie: histories on real ir.Graph objects, "
+             "generated models with colliding names across nested scopes and functions, random rename assignments — "
+             "all compared inside Coq.",
+        note=TRUST + "NameFixPass theorems are partial (assembly into per-graph distinctness, node names, values reachable only "
+             "through initializer dicts are covered by correspondence + oracle, not by theorem).",
+        technique="Coq proof (name authority, rename_values full; NameFix partial) + vm_compute correspondence",
+        design_ref="§6 C15, §10"),
+    "C16": dict(
+        level="proof",
+        text="10 theorems, none partial: the recursive-descent parser (tokenizer at character level, fuel proved sufficient) is "
+             "sound and complete w.r.t. an unambiguous reference grammar with standard precedence/associativity; exact "
+             "rational evaluation has integer semantics for // % floor ceil trunc min max; partial then complete binding = "
+             "complete binding; printing then parsing preserves every evaluation. The operator sets per precedence level, "
+             "the call structure of the _parse_* methods, tokenizer character tests and the allowed-function table are "
+             "regenerated from _symbolic_shapes.py on every run (C16_tables_current). Tie: the real parser run with SymPy "
+             "replaced by a recording stub (trees compared in Coq), real SymbolicDim operators/evaluate/simplify/serde "
+             "compared with the model's exact evaluation.",
+        note=TRUST + "SymPy's algebra, simplify and printer are an oracle (three SymPy 1.14 auto-evaluation defects are known "
+             "findings attributed only when SymPy alone reproduces them); Sqrt only on perfect squares.",
+        technique="Coq proof (parser = reference grammar; exact evaluation laws) over regenerated tables; stubbed-SymPy correspondence",
+        design_ref="§6 C16, §10"),
+    "C17": dict(
+        level="proof",
+        text="deser_model is a total Gallina function (structural recursion on the proto: termination for every proto) and "
+             "C17_consistent is proved with NO well-formedness hypothesis: whenever deserialization returns an IR, the "
+             "use-def/ownership invariant I1-I7 holds. The re-serialization fixpoint is stated but not proved: it is "
+             "evaluated per case inside Coq and compared with the implementation. Tie: 28 field-level mutation kinds, "
+             "byte-level mutations and random protos; outcome class, canonical IR and re-serialized proto compared in Coq; "
+             "the oracle checks I1-I7 through public accessors, the fixpoint and absence of file access (audit hook).",
+        note=TRUST + "Leaf payloads opaque (C02/C04); Python recursion limit; IR<10 function value-info, device configurations, "
+             "quantization annotations and invalid UTF-8 are oracle-only.",
+        technique="Coq proof (totality, consistency of any returned IR) + per-case Coq evaluation of the fixpoint clause",
+        design_ref="§6 C17, §10"),
+    "C18": dict(
+        level="proof",
+        text="Proved in full: the walk terminates; the extracted node set is exactly the least region closed under "
+             "'producer of a needed value' (both inclusions) in original order; exactly the needed initializers; uncovered "
+             "required values raise; analyze_implicit_usage returns exactly the outer-scope values used in each nested graph "
+             "or deeper, at every depth. C18_semantics_partial: for every operator semantics the extracted node list "
+             "reproduces the source's values on needed values, under an environment-agreement hypothesis whose three "
+             "discharging facts are proved separately but not assembled. Tie: real extract / analyze_implicit_usage on "
+             "generated graphs x cuts compared inside Coq; oracle: brute-force scopes, independence, ReferenceEvaluator.",
+        note=TRUST + "The cloner's value copying is not modelled (C13); Python set order is a universally quantified shuffle; "
+             "value.graph/producer/is_initializer are read from the implementation into the model's value table.",
+        technique="Coq proof (least closed region, exact captures) + vm_compute correspondence over graphs x cuts",
+        design_ref="§6 C18, §10"),
+    "C19": dict(
+        level="proof",
+        text="14 theorems, none partial, for unbounded histories of the 12 annotation/edit ops: DevInv holds in every reachable "
+             "state; DevInv and non-empty names imply the library's own check reports nothing; annotations are dropped "
+             "exactly when a value leaves the node; every rejected request leaves the state unchanged; serialized references "
+             "use current names; round trip at IR>=11 is the identity on DevInv states, below 11 drops everything. Tie: "
+             "histories on real objects (main graph + function) with clones and to_proto/from_proto round trips, "
+             "observations after every op compared inside Coq; oracle through the public API.",
+        note=TRUST + "Reading decisions as ops_ok (configuration registered at request time, device indices in range, cascade "
+             "removal; no shape edits after sharding) — probed on every run and reported as observations. Subgraph scopes, "
+             "protobuf presence and shape/type serialization are not modelled.",
+        technique="Coq invariant proof over annotation state machine; vm_compute correspondence with clone/round-trip ops",
+        design_ref="§6 C19, §10"),
     "C12": dict(
         level="proof",
         text="Seven theorems, none partial, proved in Coq for all scopes (any DAG/cyclic graph, nesting depth, captures): "
